@@ -271,6 +271,131 @@ type symEval struct {
 	// onIndex, when set, is told about every evaluation of an index expression: the index value and the length of
 	// the indexed array / slice when it is a constant of this evaluation (n < 0: unknown)
 	onIndex func(ix *ast.IndexExpr, idx sval, n int)
+	tables  map[*types.Var]map[uint64]uint64 // constant lookup tables read so far
+}
+
+// constTableLookup evaluates table[key] for a package-level map / array / slice variable of the module that is
+// initialised with a composite literal of integer constants and never written, and a key that is a constant of this
+// evaluation: the element (the zero value when the key is absent) and whether the key is present.
+func (se *symEval) constTableLookup(fi *FuncInfo, ix *ast.IndexExpr) (sval, bool, bool) {
+	info := fi.Pkg.TypesInfo
+	id, ok := ast.Unparen(ix.X).(*ast.Ident)
+	if !ok {
+		return sval{}, false, false
+	}
+	tv, ok := info.Uses[id].(*types.Var)
+	if !ok || tv.Pkg() == nil || tv.Parent() != tv.Pkg().Scope() {
+		return sval{}, false, false
+	}
+	var elemT types.Type
+	switch u := tv.Type().Underlying().(type) {
+	case *types.Map:
+		elemT = u.Elem()
+	case *types.Array:
+		elemT = u.Elem()
+	case *types.Slice:
+		elemT = u.Elem()
+	default:
+		return sval{}, false, false
+	}
+	if _, _, isInt := se.width(elemT); !isInt {
+		return sval{}, false, false
+	}
+	if se.tables == nil {
+		se.tables = map[*types.Var]map[uint64]uint64{}
+	}
+	tab, have := se.tables[tv]
+	if !have {
+		se.tables[tv] = nil
+		var lit *ast.CompositeLit
+		var linfo *types.Info
+		written := false
+		for _, pkg := range se.p.Pkgs {
+			if pkg.Types != tv.Pkg() {
+				continue
+			}
+			for _, f := range pkg.Syntax {
+				ast.Inspect(f, func(x ast.Node) bool {
+					switch y := x.(type) {
+					case *ast.ValueSpec:
+						for i, nm := range y.Names {
+							if pkg.TypesInfo.Defs[nm] == types.Object(tv) && i < len(y.Values) {
+								lit, _ = ast.Unparen(y.Values[i]).(*ast.CompositeLit)
+								linfo = pkg.TypesInfo
+							}
+						}
+					case *ast.AssignStmt:
+						for _, l := range y.Lhs {
+							if rid := rootIdent(l); rid != nil && pkg.TypesInfo.Uses[rid] == types.Object(tv) {
+								written = true
+							}
+						}
+					case *ast.IncDecStmt:
+						if rid := rootIdent(y.X); rid != nil && pkg.TypesInfo.Uses[rid] == types.Object(tv) {
+							written = true
+						}
+					case *ast.UnaryExpr:
+						if rid := rootIdent(y.X); y.Op == token.AND && rid != nil && pkg.TypesInfo.Uses[rid] == types.Object(tv) {
+							written = true
+						}
+					case *ast.CallExpr:
+						if exprStr(y.Fun) == "delete" && len(y.Args) == 2 {
+							if rid := rootIdent(y.Args[0]); rid != nil && pkg.TypesInfo.Uses[rid] == types.Object(tv) {
+								written = true
+							}
+						}
+					}
+					return true
+				})
+			}
+		}
+		if lit != nil && !written {
+			m := map[uint64]uint64{}
+			next := uint64(0)
+			okAll := true
+			for _, el := range lit.Elts {
+				val := el
+				if kv, isKV := el.(*ast.KeyValueExpr); isKV {
+					k, isK := constInt(linfo, kv.Key)
+					if !isK {
+						okAll = false
+						break
+					}
+					next, val = uint64(k), kv.Value
+				}
+				v, isV := constInt(linfo, val)
+				if !isV {
+					if u, isU := constUint(linfo, val); isU {
+						v, isV = int64(u), true
+					}
+				}
+				if !isV {
+					okAll = false
+					break
+				}
+				m[next] = uint64(v)
+				next++
+			}
+			if okAll {
+				se.tables[tv] = m
+				tab = m
+			}
+		}
+	}
+	if tab == nil {
+		return sval{}, false, false
+	}
+	key := se.eval(fi, ix.Index)
+	if key.kind != 'i' || !key.t.isConst() {
+		return sval{}, false, false
+	}
+	if se.onIndex != nil {
+		if at, isArr := tv.Type().Underlying().(*types.Array); isArr {
+			se.onIndex(ix, key, int(at.Len()))
+		}
+	}
+	v, present := tab[key.t.k]
+	return se.intVal(tConst(v), elemT), present, true
 }
 
 // seqLen: the number of elements of an array / array-backed slice / slice with a constant length; -1 if unknown.
@@ -556,6 +681,14 @@ func (se *symEval) execStmt(fi *FuncInfo, s ast.Stmt) (flow, []sval) {
 					se.assignTo(fi, l, vals[i])
 				}
 			} else if len(x.Rhs) == 1 {
+				// v, ok := table[k] on a package-level constant table
+				if ix, isIx := ast.Unparen(x.Rhs[0]).(*ast.IndexExpr); isIx && len(x.Lhs) == 2 {
+					if v, present, okT := se.constTableLookup(fi, ix); okT {
+						se.assignTo(fi, x.Lhs[0], v)
+						se.assignTo(fi, x.Lhs[1], sval{kind: 'b', b: present, bk: true})
+						return flNormal, nil
+					}
+				}
 				c, ok := ast.Unparen(x.Rhs[0]).(*ast.CallExpr)
 				if !ok {
 					se.fail(x, "multi-value assignment from a non-call")
@@ -1004,6 +1137,9 @@ func (se *symEval) eval(fi *FuncInfo, e ast.Expr) sval {
 				se.onIndex(x, idx, n)
 			}
 			return sval{kind: 'i', t: se.newSym("strbyte"), typ: types.Typ[types.Uint8]}
+		}
+		if v, _, okT := se.constTableLookup(fi, x); okT {
+			return v
 		}
 		base := se.eval(fi, x.X)
 		idx := se.eval(fi, x.Index)
